@@ -29,6 +29,18 @@ BUILT = {
    text="For 2 (quick) / 6 (thorough) fixed configurations every one of the 693,253 ordered windows from <= to over the 1177 positions is generated and the scoped run compared, position by position, with the unscoped run's window, with three further next() calls after exhaustion. Generated histories over small random configurations add repeated scope() calls (last wins), windows biased to row edges/terminal/empty, and chains of 0-63 cuts whose concatenation must equal the full run.",
    note="Trusted: the unscoped run of the same build as reference (C02 decides that it is the right enumeration); 64-bit showdown fingerprints. Only valid positions with from <= to are generated.",
    ref="DESIGN.md section 4 (C04)"),
+ "C05": dict(
+   technique="exhaustive enumeration of all 3,796 well-formed tokens x weight literals + proptest token lists, differential against an independent notation model",
+   category="exploration",
+   text="Every well-formed token (all ranks, rank pairs in either order, spans, ordered card pairs) x 4 (quick) / 14 (thorough) weight literals must parse and expand to exactly the combo set the model derives from the poker meaning of the notation, each combo once, at the literal's value; generated lists of 0-12/40 tokens over a small rank palette (frequent overlaps with different weights), optional spaces, the empty and all-space strings must parse to the model's sequential-insert map with bit-identical weights.",
+   note="Trusted: the harness's token AST/expander (notation.rs) and std's f32 parser for literal values. Lists are sampled.",
+   ref="DESIGN.md section 4 (C05)"),
+ "C06": dict(
+   technique="proptest row-pattern generation + exhaustive row sweeps + exhaustive token set, round-trip oracle (format -> parse, bit-identical)",
+   category="exploration",
+   text="Ranges built by row-pattern construction over the 169 rank-pair cells (complete at up to three weights, partial cells, weights incl. arbitrary f32 bit patterns in [0,1] and subnormals), every absent/a/b pattern of every row with <= 7 cells (thorough: every row, 3.2M ranges), and every well-formed token x weights are formatted and parsed back; the result must be equal with bit-identical weights.",
+   note="-0.0 and NaN are outside the weight domain. The 2^1326 space is sampled except for the row sweeps.",
+   ref="DESIGN.md section 4 (C06)"),
  "C07": dict(
    technique="exhaustive enumerating generator over all C(52,7) sets + directed category-boundary cases, oracle = category of the reference best-of-21 class",
    category="exploration",
@@ -41,12 +53,30 @@ BUILT = {
    text="Generated configurations aimed at the failure modes the statement names (longest blocked runs inside a window, sizes 0/1/255/256/257/511/512/513/1326, empty ranges at any seat, all-blocked ranges, full drains) are drained in a child process on a 2 MiB thread, once in a release and once in a debug-profile build of espada; any panic, signal (stack overflow), over-production, or output with an empty range is a violation.",
    note="Trusted: the OS reporting the child's death; an infinite silent loop can only hit the watchdog (exit 2). Debug profile = espada at opt-level 0 with overflow checks and debug assertions, dependencies optimised.",
    ref="DESIGN.md section 4 (C08)"),
+ "C09": dict(
+   technique="exhaustive short-string and token-shape enumeration + proptest mutation/junk/over-long generators, crash oracle (catch_unwind) with follow-up use of every parsed value",
+   category="exploration",
+   text="Every string of length <= 3 (thorough 4) over the notation alphabet extended by 2-, 3- and 4-byte characters, every string matching one of the seven token shapes with arbitrary ranks (and all 52x52 card-pair texts), plus generated mutated notation, mixed junk lists, arbitrary Unicode, weight literals and over-long inputs go through all six parsers under catch_unwind; every Ok value is formatted, expanded, decomposed and drained through the evaluator. Any panic is a violation. A libFuzzer target with the same oracle extends the thorough tier.",
+   note="Totality over all strings cannot be established by testing; the finite slices named by the property are covered completely. Evaluator hand-off is restricted to the first positions (cost).",
+   ref="DESIGN.md section 4 (C09)"),
+ "C10": dict(
+   technique="same string generators as C09 + exhaustive weight-literal grammar up to 3 digits, invariant oracle over parsed values and over showdowns computed from them",
+   category="exploration",
+   text="For every Ok card pair / token / range obtained from the generated strings (all token-shape strings incl. equal-card pairs, every literal [01](.d{1,3})? on each token shape, generated long literals, mutated notation, junk lists) each combo must have two different cards and a weight in [0,1]; evaluator runs over the parsed ranges must yield probabilities in [0,1] and no duplicate card.",
+   note="Panics are C09's subject and skipped here. Weight literals beyond 3 fraction digits are sampled.",
+   ref="DESIGN.md section 4 (C10)"),
  "C11": dict(
    technique="proptest metamorphic testing (suit relabelling, player permutation) over integer win/tie tallies",
    category="exploration",
    text="Generated suit-asymmetric configurations (flush-prone flops, single-suit ranges, pools, a mirrored player for ties, >255-combo ranges beside narrow ones) are evaluated three times: as given, with one of the 23 non-identity suit permutations applied to flop and ranges, and with the players permuted; integer tallies wins[player][k-way] must be equal resp. permuted, and in every showdown flagged winners == winner_len >= 1. Thorough adds all 24 relabellings for a sample.",
    note="Trusted: nothing beyond the relation itself (no reference evaluator is involved); category lookup for the non-triviality rule uses the harness's class table.",
    ref="DESIGN.md section 4 (C11)"),
+ "C12": dict(
+   technique="exhaustive pattern enumeration inside one rank pair + proptest almost-complete patterns, differential against a split model",
+   category="exploration",
+   text="Every absent/weight-a/weight-b pattern of the combos of a rank pair - all 3^6 x 13 pockets, 3^4 x 78 suited, 3^12 x 6 (quick) / 78 (thorough) offsuit - in a background of neighbouring rank pairs, biased almost-complete offsuit patterns over all 78 pairs with arbitrary weights, and row-pattern ranges: rank_pairs() must equal the model's complete cells in both directions with bit-equal weights, orphan_card_pairs() the model's leftovers, and every combo be covered exactly once.",
+   note="Trusted: the harness's cell/split model. Weights finite and non-negative.",
+   ref="DESIGN.md section 4 (C12)"),
  "C13": dict(
    technique="exhaustive enumerating generator + model oracle (round trips, order/numbering model)",
    category="exploration",
@@ -65,6 +95,18 @@ BUILT = {
    text="Generated schedules of next() calls over 1-6 live evaluators (identical ones, same inputs with different scopes, bursts, finish-then-resume) must give every evaluator exactly the sequence it gives alone; this is deterministic, shrinks and replays. Thread rounds (1-19 evaluators behind a barrier, moved evaluators, Arc-shared ranges, showdowns sent through channels, iterators handed over mid-run) sample OS schedules. Send+Sync for the public types is asserted at compile time in the isolated binary; a compile failure there is reported as a violation.",
    note="OS schedules are sampled, not controlled (the crate has no synchronisation to instrument). Sequence equality relies on deterministic HashMap iteration for identically constructed ranges (FxHash, no random state).",
    ref="DESIGN.md section 4 (C15)"),
+ "C16": dict(
+   technique="exhaustive enumeration of worker counts + proptest large n, validity predicate and end-to-end differential against the unscoped run",
+   category="exploration",
+   text="calculate_scopes is compiled from the example's own file; every n in 1..=32,768 (thorough 262,144) plus sampled n up to 2^22 must give n contiguous, non-decreasing scopes from (0,1) to (48,49) over valid positions; for every n <= 1,024 (thorough 4,096) and sampled larger n the scopes are fed to real evaluators as the example does and the concatenated showdowns must equal the single-threaded run.",
+   note="End-to-end uses two fixed cheap configurations. n beyond 2^22 (f32 integer precision) is not generated.",
+   ref="DESIGN.md section 4 (C16)", engine="c16_scopes"),
+ "C17": dict(
+   technique="proptest model-based construction histories + exhaustive row sweeps, canonical-form oracle (history independence + maximal-run structure via an independent tokenizer)",
+   category="exploration",
+   text="For generated target ranges 5-7 construction histories (permuted insertion, overwritten wrong weights, duplicates, capacity-changing repeats, parse of own text, parse of a shuffled non-canonical text with a superseded token, collection from bare pairs) must give equal ranges and byte-identical text; the text is read by the model's tokenizer and its rank-pair tokens must correspond one-to-one, in row order, to the model's maximal equal-weight runs, followed by single-combo tokens whose set equals the leftovers.",
+   note="Duplicate leftover tokens for partial pocket pairs are tolerated (pinned by a repository test). Histories are sampled.",
+   ref="DESIGN.md section 4 (C17)"),
 }
 ALL = ["C%02d" % i for i in range(1, 18)]
 
@@ -96,8 +138,10 @@ man = {
         "add_only": True,
     },
     "engines": [
-        {"name": "espada_verif", "path": "/verif/harness", "serves_properties": [c["property_id"] for c in checks],
-         "kind_free_text": "Rust harness crate (proptest 1.11 as a library, enumerating generators, model oracles, replay files); espada is a cargo path dependency on /repo so every run rebuilds the current working tree"},
+        {"name": "espada_verif", "path": "/verif/harness", "serves_properties": [c["property_id"] for c in checks if c["engine"] == "espada_verif"],
+         "kind_free_text": "Rust harness crate (proptest 1.11 as a library, enumerating generators, model oracles, replay files); espada is a cargo path dependency on /repo so every run rebuilds the current working tree; helper binaries c08_child (2 profiles) and c15_threads"},
+        {"name": "c16_scopes", "path": "/verif/harness/src/bin/c16_scopes.rs", "serves_properties": ["C16"],
+         "kind_free_text": "isolated binary of the same crate that #[path]-includes /repo/examples/multi-thread/scope.rs"},
     ],
     "checks": checks,
     "not_applicable": [{"property_id": p, "reason": "check not built yet (framework under construction; the design in DESIGN.md section 4 applies)"} for p in ALL if p not in BUILT],
